@@ -7,6 +7,9 @@ LEVEL_TEXT = ("bounded symbolic model checking of the real Go code: the anchored
 NOTE_COMMON = ("trusted: go/ssa lowering, the gosym interpreter and its Int-with-wrap encoding, the theory summaries of math.Int/LegacyDec/sdk.Coins/big.Int/time "
   "(cross-checked each run by replaying solver-chosen traces through the native build), z3; ")
 checks = {
+ "C01": dict(note="PARTIAL: decides that StateDB.Commit issues its keeper writes in ascending (address, storage key) order for every iteration order of the dirty-account / dirty-storage maps (Go map order modelled as an arbitrary permutation, all explored), i.e. journal.sortedDirties and Storage.SortedKeys make the commit independent of map order; NOT decided: app-hash equality of replicas over block histories, goroutine-fed counters, Begin/EndBlocker ordering", design="6/C01", technique="bounded symbolic execution of go/ssa with nondeterministic map iteration order; exhaustive enumeration of orders"),
+ "C02": dict(note="PARTIAL: decides on the real StateDB/journal/state objects that every bounded program of value transfers, self-destructs and (reverting) call frames commits balances = before + received - paid, total supply = sum of surviving balances and never above the initial supply (ledger keeper reproduces SetBalance's mint/burn delta); NOT decided: precompile calls and their balance mirroring (suspected overwrite of Cosmos-side debits, DESIGN.md section 8), fees", design="6/C02", technique="bounded symbolic execution of go/ssa; exhaustive enumeration of bounded operation programs"),
+ "C05": dict(note="decides on the real StateDB/journal: after RevertToSnapshot every getter answers as at Snapshot(); after the final Commit the stores hold exactly the surviving writes, for every bounded program incl. the mid-transaction Commit every stateful precompile performs. One genuine defect is recorded as known finding C05-F2 (flushed state of a later-reverted frame survives; reproduced on the full app). NOT decided: Cosmos-side effects of precompile bodies (not journaled - architectural finding in DESIGN.md)", design="6/C05", technique="bounded symbolic execution of go/ssa; exhaustive enumeration of bounded operation programs"),
  "C07": dict(note="decides: gasUsed = max(floor(gasLimit x minGasMultiplier), EVM gas after the EIP-3529 refund) <= gasLimit for any interpreter outcome (real ApplyMessageWithConfig, EVM stubbed); after RefundGas the sender's net payment and the fee collector's income are exactly gasUsed x effective price; VerifyFee = gasLimit x effective price and rejects fee cap < base fee; eth-route and Cosmos-route min-gas-price decorators accept only fee >= gasLimit x minGasPrice (two-sided). NOT decided: contract creation, DeductFees plumbing, multi-message ApplyTransaction", design="6/C07"),
  "C03": dict(note="PARTIAL (replay protection only): decides that the eth-route sequence decorator accepts a message iff nonce = sender's current sequence, consumes exactly one sequence number per accepted message (any interleaving of 2 senders, <= 3 messages) and rejects an immediate replay; NOT decided: that signatures bind content and chain id (keccak/RLP/secp256k1/EIP-712 cannot be encoded), the Cosmos/EIP-712 routes", design="6/C03"),
  "C18": dict(note="PARTIAL: decides that FromEthereumTx -> packed tx data -> AsTransaction is the identity on every field (nonce, gas, price/tip/cap, value, to, data, access list, chain id, v/r/s, type) for the three types incl. nil vs zero, and that Fee / Cost / EffectiveGasPrice / EffectiveFee / EffectiveCost equal the go-ethereum figures of the original. NOT decided: the protobuf encode/decode leg (BuildTx, TxEncoder/Decoder), hash and sender equality (they are functions of exactly the compared fields; keccak/RLP/secp256k1 are not encoded)", design="6/C18"),
@@ -22,7 +25,7 @@ checks = {
 }
 na = {
 }
-pending = "C01 C02 C04 C05 C10 C16".split()
+pending = "C04 C10 C16".split()
 m = {
  "version": 1,
  "setup_cmd": "cd /verif/engine && GOFLAGS=-mod=mod GOPROXY=off GOSUMDB=off GOTOOLCHAIN=local go build -o /verif/bin/vcheck ./cmd/vcheck",
